@@ -95,6 +95,11 @@ func isoTrees(e *Env, r *rand.Rand, parent string, hostileNames bool) []isoCase 
 	// hierarchy apart from the kind): both must be there, the directory with its own children
 	mk("file-dir-case", false, map[string]int64{"name": 5, "NAME/in": 7, "NAME/sub/deep": 2049, "zz": 1})
 	mk("dir-file-case", false, map[string]int64{"Data/in": 7, "data": 5, "x/Data": 3, "x/data/y": 4})
+	// sibling directories one of whose names is a prefix of the other (with sub-directories below the
+	// longer one, and the same again one level down): parent links are not a matter of string prefixes
+	mk("prefix-siblings", false, map[string]int64{"a/x": 1, "ab/sub/y": 2, "ab/sub2/deep/z": 3, "abc/q": 4, "d1/f": 5, "d10/sub/g": 6, "d100/sub/sub/h": 7,
+		"top/USR/a": 8, "top/USRDIR/in/b": 9, "top/USRDIR2/in/in/c": 10}, "a/empty", "ab/empty")
+	mk("prefix-siblings-ps3", true, map[string]int64{"PS3_GAMEDATA/sub/z": 3, "PS3_GAME/USRDIR/eboot": 4, "PS3_GAME/USR/x": 1, "PS3_GAME/USRDIR/USR/y": 2, "PS3_G/x/y": 5})
 	// portable names the random generator avoids: leading dot or dash, trailing dot, only dots and dashes
 	mk("dot-names", false, map[string]int64{".hidden": 3, "..a": 4, "...": 5, "-dash": 6, "a.": 7, ".dir/x": 8, "trailing./y": 1, "a.b.c.d": 2, "-": 9, "_": 10, ".d2/.f": 11, "--/--": 12})
 	mk("dot-names-ps3", true, map[string]int64{".hidden": 3, "PS3_GAME/.x": 4, "PS3_GAME/USRDIR/..a": 5})
